@@ -19,6 +19,8 @@ type Case struct {
 	Kind     string     `json:"kind"` // codon | lists | string
 	Seq      vk.SeqSpec `json:"seq"`  // upper-case A/C/G/T
 	CaseMask uint64     `json:"case_mask"`
+	// Prior: a sequence translated (with the same table) immediately before the judged calls, its result discarded
+	Prior string `json:"prior,omitempty"`
 }
 
 func applyCase(s string, mask uint64) string {
@@ -77,6 +79,12 @@ func check(c Case) error {
 	}
 	upper := c.Seq.String()
 	in := applyCase(upper, c.CaseMask)
+	for _, sib := range vk.Siblings(upper) { // related inputs first, results discarded
+		_, _ = translate(sib, table)
+	}
+	if c.Prior != "" {
+		_, _ = translate(c.Prior, table)
+	}
 	want := g.TranslateRef(upper)
 	got, err := translate(in, table)
 	if err != nil {
@@ -225,6 +233,23 @@ func gen(t *rapid.T) Case {
 }
 
 func TestSub_strings(t *testing.T) { vk.RunRapid(t, subStrings) }
+
+var subCollisions = vk.Register(&vk.Sub[Case]{Name: "collisions", Check: check, NonTrivial: func(Case) bool { return true }, Sample: sample})
+
+// TestSub_collisions: the two sequences of every checksum-colliding pair (vk.CollidingPairs) one directly after the other.
+func TestSub_collisions(t *testing.T) {
+	vk.RunEnum(t, subCollisions, "every checksum-colliding pair of 30-mers x both orders x tables 1, 2, 11", true, func(yield func(Case) bool) {
+		for _, pr := range vk.CollidingPairs() {
+			for _, id := range []int{1, 2, 11} {
+				for _, o := range [][2]string{{pr.A, pr.B}, {pr.B, pr.A}} {
+					if !yield(Case{Table: id, Kind: "string", Seq: vk.SeqSpec{Lit: o[1]}, Prior: o[0], CaseMask: 0x3c}) {
+						return
+					}
+				}
+			}
+		}
+	})
+}
 
 func TestReplay(t *testing.T) { vk.Replay(t) }
 
